@@ -412,6 +412,7 @@ func (w *Worker) runC19Case(idx int64) {
 		b, _ := json.Marshal(tasks)
 		trace("C19 case %d: %s", idx, b)
 	}
+	resetInputBufs()
 	w.St.Cases++
 	for _, t := range tasks {
 		for _, c := range t.Calls {
